@@ -432,7 +432,7 @@ namespace vf
       if(a == "--target") tname = nxt(); else if(a == "--cases") cases = atol(nxt().c_str());
       else if(a == "--max-size") max_size = atoi(nxt().c_str()); else if(a == "--seed") seed = strtoull(nxt().c_str(), nullptr, 10);
       else if(a == "--out") out_path = nxt(); else if(a == "--replay") replay_path = nxt();
-      else if(a == "--replay-dir") replay_dir = nxt(); else if(a == "--exclude") excl_s = nxt(); else if(a == "--list") list = true;
+      else if(a == "--replay-dir") replay_dir = nxt(); else if(a == "--exclude") excl_s = nxt(); else if(a == "--list") list = true; else if(a == "--tier") (void)nxt();
     }
     if(list) { for(auto& t : targets) printf("%s\n", t.name.c_str()); return 0; }
     std::set<std::string> excluded; { std::stringstream ss(excl_s); std::string x; while(std::getline(ss, x, ',')) if(!x.empty()) excluded.insert(x); }
